@@ -331,12 +331,16 @@ theorem getD_setIfInBounds (t : Array Nat) (i k v : Nat) :
     · simp [h2]
   · simp [h1]
 
-theorem getD_map_halve (t : Array Nat) (i : Nat) :
-    (t.map halveWord).getD i 0 = halveWord (t.getD i 0) := by
+theorem getD_map (f : Nat → Nat) (hf : f 0 = 0) (t : Array Nat) (i : Nat) :
+    (t.map f).getD i 0 = f (t.getD i 0) := by
   simp only [Array.getD_eq_getD_getElem?, Array.getElem?_map]
   cases t[i]? with
-  | none => exact halveWord_zero.symm
+  | none => exact hf.symm
   | some w => rfl
+
+theorem getD_map_halve (t : Array Nat) (i : Nat) :
+    (t.map halveWord).getD i 0 = halveWord (t.getD i 0) :=
+  getD_map halveWord halveWord_zero t i
 
 theorem getD_replicate_zero (n i : Nat) : (Array.replicate n 0).getD i 0 = 0 := by
   simp only [Array.getD_eq_getD_getElem?, Array.getElem?_replicate]
@@ -353,75 +357,85 @@ theorem wordsOK_map_halve (t : Array Nat) : WordsOK (t.map halveWord) := by
 
 /-! ### `incrementAt` -/
 
-theorem incrementAt_eq (t : Array Nat) (idx j : Nat) :
-    incrementAt t idx j =
-      if nib (t.getD idx 0) j ≠ 15 then (t.setIfInBounds idx (t.getD idx 0 + 16 ^ j), true)
-      else (t, false) := rfl
+theorem incrementAt_pos (t : Array Nat) (idx j : Nat) (h : nib (t.getD idx 0) j ≠ 15) :
+    incrementAt t idx j = (t.setIfInBounds idx (t.getD idx 0 + 16 ^ j), true) := by
+  show (if nib (t.getD idx 0) j ≠ 15 then (t.setIfInBounds idx (t.getD idx 0 + 16 ^ j), true)
+      else (t, false)) = _
+  rw [if_pos h]
+
+theorem incrementAt_neg (t : Array Nat) (idx j : Nat) (h : nib (t.getD idx 0) j = 15) :
+    incrementAt t idx j = (t, false) := by
+  show (if nib (t.getD idx 0) j ≠ 15 then (t.setIfInBounds idx (t.getD idx 0 + 16 ^ j), true)
+      else (t, false)) = _
+  rw [if_neg (fun hh => hh h)]
 
 theorem incrementAt_size (t : Array Nat) (idx j : Nat) :
     (incrementAt t idx j).1.size = t.size := by
-  rw [incrementAt_eq]
-  split <;> simp
+  by_cases h : nib (t.getD idx 0) j = 15
+  · rw [incrementAt_neg _ _ _ h]
+  · rw [incrementAt_pos _ _ _ h]; exact Array.size_setIfInBounds
 
 theorem incrementAt_added (t : Array Nat) (idx j : Nat) :
     (incrementAt t idx j).2 = true ↔ cntAt t idx j ≠ 15 := by
-  rw [incrementAt_eq]; unfold cntAt
-  split <;> simp_all
+  unfold cntAt
+  by_cases h : nib (t.getD idx 0) j = 15
+  · rw [incrementAt_neg _ _ _ h]
+    exact ⟨fun hh => Bool.noConfusion hh, fun hh => absurd h hh⟩
+  · rw [incrementAt_pos _ _ _ h]
+    exact ⟨fun _ => h, fun _ => rfl⟩
 
 theorem incrementAt_wordsOK (t : Array Nat) (idx j : Nat) (hj : j < 16) (ht : WordsOK t) :
     WordsOK (incrementAt t idx j).1 := by
-  rw [incrementAt_eq]
-  split
-  · rename_i h
+  by_cases h : nib (t.getD idx 0) j = 15
+  · rw [incrementAt_neg _ _ _ h]; exact ht
+  · rw [incrementAt_pos _ _ _ h]
     intro i
-    simp only [getD_setIfInBounds]
+    show (t.setIfInBounds idx (t.getD idx 0 + 16 ^ j)).getD i 0 < 16 ^ 16
+    rw [getD_setIfInBounds]
     split
     · exact add_pow_lt _ _ (ht idx) hj h
     · exact ht i
-  · exact ht
 
 /-- The counter view of `incrementAt`: the addressed counter is saturating-incremented, every
 other counter of the table is unchanged. -/
 theorem incrementAt_cnt (t : Array Nat) (idx j x y : Nat) (hidx : idx < t.size) :
     cntAt (incrementAt t idx j).1 x y
       = if x = idx ∧ y = j then satInc (cntAt t x y) else cntAt t x y := by
-  rw [incrementAt_eq]
-  split
-  · rename_i h
-    simp only [cntAt, getD_setIfInBounds]
-    by_cases hx : idx = x
-    · subst hx
-      simp only [hidx, and_self, if_true, true_and]
-      by_cases hy : y = j
-      · subst hy
-        have := nib_lt (t.getD idx 0) y
-        simp only [if_true, nib_add_pow_self _ _ h, satInc]
-        omega
-      · simp only [hy, if_false]
-        exact nib_add_pow_ne _ _ _ h hy
-    · have hx' : ¬ x = idx := fun e => hx e.symm
-      simp [hx, hx']
-  · rename_i h
-    have h15 : nib (t.getD idx 0) j = 15 := by
-      simpa using h
-    simp only []
+  by_cases h : nib (t.getD idx 0) j = 15
+  · rw [incrementAt_neg _ _ _ h]
+    show cntAt t x y = _
     split
     · rename_i hxy
       obtain ⟨rfl, rfl⟩ := hxy
-      simp [cntAt, h15, satInc]
+      unfold cntAt satInc; rw [h]; rfl
     · rfl
+  · rw [incrementAt_pos _ _ _ h]
+    show nib ((t.setIfInBounds idx (t.getD idx 0 + 16 ^ j)).getD x 0) y = _
+    rw [getD_setIfInBounds]
+    unfold cntAt
+    by_cases hx : idx = x
+    · subst hx
+      rw [if_pos ⟨rfl, hidx⟩]
+      by_cases hy : y = j
+      · subst hy
+        rw [if_pos ⟨rfl, rfl⟩, nib_add_pow_self _ _ h]
+        have := nib_lt (t.getD idx 0) y
+        unfold satInc
+        omega
+      · rw [if_neg (fun hh => hy hh.2)]
+        exact nib_add_pow_ne _ _ _ h hy
+    · rw [if_neg (fun hh => hx hh.1), if_neg (fun hh => hx hh.1.symm)]
 
 theorem incrementAt_sum (t : Array Nat) (idx j : Nat) (hidx : idx < t.size) (hj : j < 16) :
     tableSum (incrementAt t idx j).1
       = tableSum t + (if (incrementAt t idx j).2 then 1 else 0) := by
-  rw [incrementAt_eq]
-  split
-  · rename_i h
+  by_cases h : nib (t.getD idx 0) j = 15
+  · rw [incrementAt_neg _ _ _ h]; simp
+  · rw [incrementAt_pos _ _ _ h]
     have := sumBy_setIfInBounds wordSum t idx (t.getD idx 0 + 16 ^ j) hidx
     rw [wordSum_add_pow _ _ hj h] at this
-    simp only [tableSum, if_true]
+    show sumBy wordSum (t.setIfInBounds idx (t.getD idx 0 + 16 ^ j)) = sumBy wordSum t + 1
     omega
-  · simp
 
 /-! ## §C  Well-formedness, `ensureCapacity`, index bounds -/
 
@@ -507,7 +521,7 @@ def tableSizeFor (cap : Nat) : Nat :=
   if min cap (2 ^ Gen.SKETCH_MAX_TABLE_POW) = 0 then 1
   else nextPow2 (min cap (2 ^ Gen.SKETCH_MAX_TABLE_POW))
 
-theorem tableSizeFor_le (cap k : Nat) (hk : k ≤ 30) (hcap : cap ≤ 2 ^ k) :
+theorem tableSizeFor_le (cap k : Nat) (hcap : cap ≤ 2 ^ k) :
     tableSizeFor cap ≤ 2 ^ k := by
   unfold tableSizeFor
   split
@@ -586,6 +600,80 @@ theorem init_sampleSize (cap : Nat) :
     (if cap = 0 then 10 else min (min (min cap (2 ^ 30) * 10) U32_MAX) 2147483647) ≤ 2147483647
   unfold U32_MAX
   split <;> omega
+
+/-! ## §D  One increment = `bump` (four `incrementAt`) followed, possibly, by an aging step -/
+
+/-- The four `incrementAt` of `increment`, with the `added` flag. -/
+def bumpTable (s : Sketch) (hash : UInt64) : Array Nat × Bool :=
+  let r0 := incrementAt s.table (s.indexOf hash 0) (start hash + 0)
+  let r1 := incrementAt r0.1 (s.indexOf hash 1) (start hash + 1)
+  let r2 := incrementAt r1.1 (s.indexOf hash 2) (start hash + 2)
+  let r3 := incrementAt r2.1 (s.indexOf hash 3) (start hash + 3)
+  (r3.1, r0.2 || r1.2 || r2.2 || r3.2)
+
+/-- The state after the counters of `hash` were incremented and `size` was bumped, *before*
+the aging step that this increment may trigger. -/
+def bump (s : Sketch) (hash : UInt64) : Sketch :=
+  { s with
+    table := (bumpTable s hash).1
+    size := if (bumpTable s hash).2 then s.size + 1 else s.size }
+
+/-- One `increment` that also reports whether it ran the aging step (`reset`). -/
+def incrStep (s : Sketch) (hash : UInt64) : Except Fault (Sketch × Bool) :=
+  if s.table.size = 0 then .ok (s, false)
+  else if (bumpTable s hash).2 then
+    if s.size + 1 > U32_MAX then .error .overflow
+    else if (bump s hash).size ≥ (bump s hash).sampleSize then
+      match reset false (bump s hash) with
+      | .ok s' => .ok (s', true)
+      | .error e => .error e
+    else .ok (bump s hash, false)
+  else .ok (bump s hash, false)
+
+/-- Forget the aging flag. -/
+def dropFlag : Except Fault (Sketch × Bool) → Except Fault Sketch
+  | .ok p => .ok p.1
+  | .error e => .error e
+
+theorem increment_eq_bump (legacy : Bool) (s : Sketch) (hash : UInt64) :
+    increment legacy s hash =
+      if s.table.size = 0 then .ok s
+      else if (bumpTable s hash).2 then
+        if s.size + 1 > U32_MAX then .error .overflow
+        else if (bump s hash).size ≥ (bump s hash).sampleSize then reset legacy (bump s hash)
+        else .ok (bump s hash)
+      else .ok (bump s hash) := by
+  unfold increment bump bumpTable
+  generalize incrementAt s.table (s.indexOf hash 0) (start hash + 0) = r0
+  obtain ⟨t0, a0⟩ := r0
+  generalize incrementAt t0 (s.indexOf hash 1) (start hash + 1) = r1
+  obtain ⟨t1, a1⟩ := r1
+  generalize incrementAt t1 (s.indexOf hash 2) (start hash + 2) = r2
+  obtain ⟨t2, a2⟩ := r2
+  generalize incrementAt t2 (s.indexOf hash 3) (start hash + 3) = r3
+  obtain ⟨t3, a3⟩ := r3
+  by_cases hz : s.table.size = 0
+  · simp only [hz, if_true]
+  · simp only [hz, if_false]
+    by_cases ha : (a0 || a1 || a2 || a3) = true
+    · simp only [ha, if_true]
+    · simp only [ha, if_false]
+      rfl
+
+/-- `incrStep` is `Sketch.increment false` plus the aging flag. -/
+theorem increment_eq_incrStep (s : Sketch) (hash : UInt64) :
+    increment false s hash = dropFlag (incrStep s hash) := by
+  rw [increment_eq_bump]
+  unfold incrStep
+  split
+  · rfl
+  · split
+    · split
+      · rfl
+      · split
+        · cases reset false (bump s hash) <;> rfl
+        · rfl
+    · rfl
 
 end Sketch
 end MiniMoka
